@@ -149,6 +149,32 @@ def carry_case(rng, length):
     return c
 
 
+def long_case(rng, target_bytes, defaults):
+    """a single writer that emits more than `target_bytes` bytes (buffer growth, 16/32-bit offsets, long carry chains)"""
+    c = Case("long")
+    for i in range(3):
+        if defaults and i:
+            n, e = rng.choice(defaults)
+            c.tables[i] = (n, list(e))
+        else:
+            n = rng.range(2, 16)
+            c.tables[i] = (n, shape_cdf(rng, n, rng.choice(SHAPES)))
+    c.ops.append(("adapt", rng.below(2)))
+    bits = 0
+    while bits < 8 * target_bytes:
+        x = rng.below(16)
+        if x < 12:
+            nb = rng.range(16, 24)
+            c.ops.append(("lit", nb, rng.choice([(1 << nb) - 1, rng.below(1 << nb), rng.below(1 << nb)])))
+            bits += nb
+        elif x < 14:
+            t = rng.below(3)
+            c.ops.append(("sym", t, rng.below(c.tables[t][0])))
+        else:
+            c.ops.append(("boolq", rng.choice([1, 128, 16384, 32767]), rng.below(2)))
+    return c
+
+
 def exhaustive_cases(tier):
     """every sequence of length <= L over a small op alphabet, with adaptation off and on"""
     tabs = {0: (2, [16384, 0, 0]), 1: (2, [32767, 0, 31]), 2: (3, [4, 2, 0, 15]), 3: (16, [32767 - 3 * i for i in range(15)] + [0, 0])}
@@ -247,6 +273,9 @@ def gen_cases(chk):
         cases.append(random_case(chk.rng, ln, defaults))
     for i in range(60 if chk.tier == "quick" else 240):
         cases.append(carry_case(chk.rng, chk.rng.range(10, 4000)))
+    # streams longer than 2^16 (and, thorough, 2^17 / 2^20) bytes from ONE writer
+    for tb in ([70000, 135000] if chk.tier == "quick" else [70000, 135000, 300000, 1100000]):
+        cases.append(long_case(chk.rng, tb, defaults))
     # every real default table once, each symbol coded with adaptation on (thorough: all; quick: a sample)
     dsel = defaults if chk.tier == "thorough" else [chk.rng.choice(defaults) for _ in range(300)] if defaults else []
     for k in range(0, len(dsel), 64):
